@@ -8,3 +8,4 @@ import Dashu.Props.C16Gen
 #print axioms Dashu.Props.C16Gen.from_chunks_guard_is_generated
 #print axioms Dashu.Props.C16Gen.to_float_assert_is_generated
 #print axioms Dashu.Props.C16Gen.to_float_shift_is_generated
+#print axioms Dashu.Props.C16Gen.to_float_need_digits_in_usize
